@@ -252,7 +252,12 @@ func (c *FnCtx) setupSpec(st0 *State) {
 			c.specErr(r, err)
 			continue
 		}
-		c.assume(t)
+		if r.label != "" {
+			// a labelled precondition can be switched off for obligations that do not need it
+			c.assume(implies(c.act(r.label), t))
+		} else {
+			c.assume(t)
+		}
 		s.reqs = append(s.reqs, t)
 	}
 	if c.inst != nil {
@@ -347,7 +352,7 @@ func (c *FnCtx) checkEnsures(st *State, vals []*Val, where string) {
 			c.specErr(bc.cl, err)
 			continue
 		}
-		o := &Obligation{Name: fmt.Sprintf("%s.%s@%s", c.spec.oname(), bc.name, where), Kind: "ensures", Clause: bc.cl.src, Where: where, Hyp: st.pc, Goal: t, Witness: bc.cl.witness}
+		o := &Obligation{Uses: bc.cl.uses, Name: fmt.Sprintf("%s.%s@%s", c.spec.oname(), bc.name, where), Kind: "ensures", Clause: bc.cl.src, Where: where, Hyp: st.pc, Goal: t, Witness: bc.cl.witness}
 		if bc.cl.cover {
 			o.Kind = "cover"
 			o.Cover = true
@@ -358,6 +363,8 @@ func (c *FnCtx) checkEnsures(st *State, vals []*Val, where string) {
 }
 
 func (c *FnCtx) loopInvariants(li *loopInfo, st *State, cond Term, mode string) {
+	c.curLoop = li
+	defer func() { c.curLoop = nil }()
 	s := c.ss()
 	if mode == "assume" {
 		s.headSt[li] = st.clone()
@@ -385,7 +392,7 @@ func (c *FnCtx) loopInvariants(li *loopInfo, st *State, cond Term, mode string) 
 					continue
 				}
 			}
-			c.assume(implies(cond, t))
+			c.assume(implies(c.act(bc.name), implies(cond, t)))
 			continue
 		}
 		kind := "invariant-entry"
@@ -394,7 +401,7 @@ func (c *FnCtx) loopInvariants(li *loopInfo, st *State, cond Term, mode string) 
 			kind = "invariant-preserved"
 			nm = "preserved"
 		}
-		c.emit(&Obligation{Name: fmt.Sprintf("%s.%s.%s", c.spec.oname(), bc.name, nm), Kind: kind, Clause: bc.cl.src, Where: fmt.Sprintf("loop %d %s", li.ordinal, mode), Hyp: cond, Goal: t})
+		c.emit(&Obligation{Uses: bc.cl.uses, Name: fmt.Sprintf("%s.%s.%s", c.spec.oname(), bc.name, nm), Kind: kind, Clause: bc.cl.src, Where: fmt.Sprintf("loop %d %s", li.ordinal, mode), Hyp: cond, Goal: t})
 	}
 	// automatic candidates (Houdini): range-index bounds and event-flag progress
 	c.autoCandidates(li, st, cond, mode)
@@ -510,6 +517,8 @@ func (c *FnCtx) loopDecreases(li *loopInfo, st *State, cond Term, head, back map
 	if hs == nil {
 		return
 	}
+	c.curLoop = li
+	defer func() { c.curLoop = nil }()
 	envH := *s.env
 	envH.st = hs
 	mh, err := c.evalSpec(ls.decreases.expr, &envH)
@@ -538,6 +547,12 @@ func (c *FnCtx) loopDecreases(li *loopInfo, st *State, cond Term, head, back map
 // heapDesignator resolves "Type.field", "elems(T)", "map(K,V)", "ptr(T)".
 func (c *FnCtx) heapDesignators(pkg *types.Package, ds []string) (names map[string]bool, err error) {
 	names = map[string]bool{}
+	reg := func(name, srt string) {
+		names[name] = true
+		if _, ok := c.heapSort[name]; !ok {
+			c.heapSort[name] = srt
+		}
+	}
 	for _, d := range ds {
 		d = strings.TrimSpace(d)
 		switch {
@@ -552,8 +567,8 @@ func (c *FnCtx) heapDesignators(pkg *types.Package, ds []string) (names map[stri
 			if e := c.try(func() { T = c.resolveType(te, pkg) }); e != nil {
 				return nil, e
 			}
-			hn, _ := c.elemHeap(T)
-			names[hn] = true
+			hn, hs := c.elemHeap(T)
+			reg(hn, hs)
 		case strings.HasPrefix(d, "ptr(") && strings.HasSuffix(d, ")"):
 			te, e := parseTypeText(d[4 : len(d)-1])
 			if e != nil {
@@ -563,7 +578,7 @@ func (c *FnCtx) heapDesignators(pkg *types.Package, ds []string) (names map[stri
 			if e := c.try(func() { T = c.resolveType(te, pkg) }); e != nil {
 				return nil, e
 			}
-			names["P|"+elemKey(T)] = true
+			reg("P|"+elemKey(T), "(Array Int "+c.sortOf(T)+")")
 		case strings.HasPrefix(d, "map(") && strings.HasSuffix(d, ")"):
 			parts := strings.SplitN(d[4:len(d)-1], ";", 2)
 			if len(parts) != 2 {
@@ -578,9 +593,9 @@ func (c *FnCtx) heapDesignators(pkg *types.Package, ds []string) (names map[stri
 			if e := c.try(func() { K = c.resolveType(kt, pkg); V = c.resolveType(vt, pkg) }); e != nil {
 				return nil, e
 			}
-			dn, _, vn, _ := c.mapHeaps(K, V)
-			names[dn] = true
-			names[vn] = true
+			dn, ds2, vn, vs2 := c.mapHeaps(K, V)
+			reg(dn, ds2)
+			reg(vn, vs2)
 		default:
 			i := strings.LastIndex(d, ".")
 			if i < 0 {
@@ -594,7 +609,18 @@ func (c *FnCtx) heapDesignators(pkg *types.Package, ds []string) (names map[stri
 			if e := c.try(func() { T = c.resolveType(te, pkg) }); e != nil {
 				return nil, e
 			}
-			names[fieldHeap(T, d[i+1:])] = true
+			fsort := ""
+			if st, ok := isStruct(T); ok {
+				for fi := 0; fi < st.NumFields(); fi++ {
+					if st.Field(fi).Name() == d[i+1:] {
+						fsort = "(Array Int " + c.sortOf(st.Field(fi).Type()) + ")"
+					}
+				}
+			}
+			if fsort == "" {
+				return nil, fmt.Errorf("no field %s in %s", d[i+1:], d[:i])
+			}
+			reg(fieldHeap(T, d[i+1:]), fsort)
 		}
 	}
 	return names, nil
@@ -650,6 +676,19 @@ func (c *FnCtx) checkFrame(st *State, where string) {
 // loopOfVar finds the innermost loop whose blocks contain every DebugRef of the
 // source variable `name` (a range key / value or a variable declared in the loop).
 func (c *FnCtx) loopOfVar(name string) *loopInfo {
+	// a `for i := ...` loop variable is the phi named i at the loop header
+	var byPhi []*loopInfo
+	for _, li := range c.loopOrd {
+		for _, ins := range li.header.Instrs {
+			if phi, ok := ins.(*ssa.Phi); ok && phi.Comment == name {
+				byPhi = append(byPhi, li)
+				break
+			}
+		}
+	}
+	if len(byPhi) == 1 {
+		return byPhi[0]
+	}
 	var refs []*ssa.BasicBlock
 	var decl []*ssa.BasicBlock
 	for _, b := range c.fn.Blocks {
@@ -690,4 +729,20 @@ func (c *FnCtx) loopOfVar(name string) *loopInfo {
 		}
 	}
 	return innermost(refs)
+}
+
+// act returns the activation literal of a named loop invariant: the invariant is
+// assumed at its loop head only under this literal, so that an obligation can be
+// proved from the subset of invariants it names (`label{a,b}: ...`).
+func (c *FnCtx) act(name string) Term {
+	if c.acts == nil {
+		c.acts = map[string]Term{}
+	}
+	if t, ok := c.acts[name]; ok {
+		return t
+	}
+	t := c.fresh("act."+name, "Bool")
+	c.acts[name] = t
+	c.actOrder = append(c.actOrder, name)
+	return t
 }
